@@ -162,3 +162,60 @@ def coq_devs(devs):
 
 def frac(x):
     return Fraction(int(x[0]), int(x[1]))
+
+
+def dag_correspondence(ctx, prop, n):
+    """steady_state and impulse_nonlinear of generated polynomial DAGs (shuffled listing) vs the executable rational model (Model/NLSolve.v run_dag):
+    the model is given the calibration only and computes the steady-state table itself; well-formedness of the evaluation order is decided in Coq"""
+    from sequence_jacobian import combine
+    rng = ctx['rng']
+    specs = [gen_nl_model(rng) for _ in range(n)]
+    mod = write_module(f'{prop}_dag_{ctx["seed"]}_{ctx["tier"]}', specs)
+    exprs, meta, dis = [], [], []
+    for mi, spec in enumerate(specs):
+        objs = [getattr(mod, f'm{mi}_{b["name"]}') for b in spec['blocks']]
+        rng.shuffle(objs)
+        model = combine(objs, name=f'dag{mi}')
+        T, N = spec['T'], spec['N']
+        calib = {f'x{k}': v for k, v in spec['calib'].items()}
+        shocked = spec['Z'] + [u for u in spec['U'] if rng.random() < 0.5]
+        devs = {f'x{v}': np.array([2.0 ** -3 * rng.choice([1.0, -1.0, 0.5, 0.0, 2.0]) for _ in range(T)]) for v in shocked}
+        try:
+            ss = model.steady_state(calib)
+            re = model.steady_state({k: ss[k] for k in model.inputs})
+            td = model.impulse_nonlinear(ss, devs)
+            zero = model.impulse_nonlinear(ss, {k: np.zeros(T) for k in devs})
+        except Exception as ex:
+            dis.append(dict(what=f'generated polynomial DAG raised {type(ex).__name__}: {ex}', case=dict(spec=spec)))
+            continue
+        order = [b.name.split('_', 1)[1] for b in model.blocks]
+        bmap = {b['name']: b for b in spec['blocks']}
+        outs = sorted(int(k[1:]) for k in td.toplevel if k not in devs)
+        table = C.coq_list([calib.get(f'x{i}', 0.0) for i in range(N)], qf)
+        exprs.append(f'run_dag {N} {T}%Z {table} {coq_prog([bmap[nm] for nm in order])} {coq_devs([(int(k[1:]), v) for k, v in devs.items()])} {C.coq_list(outs, str)}')
+        meta.append((dict(spec=spec, listing=[o.name for o in objs], shocked=sorted(devs)), ss, re, td, zero, outs, N))
+    vals, logs = C.eval_in_coq(prop, HEADER, exprs, chunk=max(1, len(exprs) // 16 + 1), tag='dag')
+    for (case, ss, re, td, zero, outs, N), vm in zip(meta, vals):
+        if vm is None:
+            continue
+        wf, ssm, devm = vm if len(vm) == 3 else (vm[0][0], vm[0][1], vm[1])
+        bad = []
+        if wf is not True:
+            bad.append('the evaluation order chosen by the implementation fails the well-formedness test of the model')
+        for i in range(N):
+            v = float(frac(ssm[i]))
+            if f'x{i}' in ss.toplevel and abs(ss[f'x{i}'] - v) > 1e-12 * max(1.0, abs(v)):
+                bad.append(f'steady state of x{i}')
+            if f'x{i}' in ss.toplevel and f'x{i}' in re.toplevel and re[f'x{i}'] != ss[f'x{i}']:
+                bad.append(f're-evaluation at the steady state changes x{i}')
+        for o, pm in zip(outs, devm):
+            pmf = np.array([float(frac(x)) for x in pm])
+            if len(pmf) != len(td[f'x{o}']) or np.abs(pmf - td[f'x{o}']).max() > 1e-11 * max(1.0, np.abs(pmf).max()):
+                bad.append(f'nonlinear path of x{o}')
+        if any(np.abs(zero[k]).max() != 0 for k in zero.toplevel):
+            bad.append('a zero shock gives non-zero deviations')
+        if bad:
+            dis.append(dict(what='steady_state / impulse_nonlinear of a DAG of simple blocks differs from the executable rational model', case=dict(case, differing=bad[:6])))
+    for l in logs:
+        dis.append(dict(what='coq evaluation failed', log=l))
+    return meta, exprs, dis
